@@ -240,12 +240,19 @@ def error_world(rng):
         domain = None if rng.random() < 0.25 else 'foo-%s-%s' % (prefix.replace('_', '-'), rng.choice(['quark', 'domain']))
         flags = rng.random() < 0.2
         out.append(dict(name=name, prefix=prefix, registered=registered, domain=None if flags else domain, flags=flags))
+    if rng.random() < 0.4:
+        out.append(dict(orphan=True, prefix=rng.choice(['orphan', 'web', 'error']), domain='foo-orphan'))     # a quark function without enumeration
     return out
 
 
-def run_error_world(ck, S, ET, ew):
+def run_error_world(ck, S, ET, ew, qitems):
     syms, dump = [], ['<?xml version="1.0"?><dump>']
     line = 10
+    orphans = [e for e in ew if e.get('orphan')]
+    ew = [e for e in ew if not e.get('orphan')]
+    for o in orphans:
+        syms.append(S.func('foo_%s_quark' % o['prefix'], S.td('GQuark'), [], line=5))
+        dump.append('<error-quark function="foo_%s_quark" domain="%s"/>' % (o['prefix'], o['domain']))
     for e in ew:
         cname = 'Foo' + e['name']
         up = 'FOO_' + e['prefix'].upper()
@@ -264,13 +271,27 @@ def run_error_world(ck, S, ET, ew):
     dump.append('</dump>')
     case = dict(enumerations=ew)
     try:
-        r = S.run(syms, includes=['GLib', 'GObject'], dump=ET.ElementTree(ET.fromstring(''.join(dump))), warnings=False)
+        r = S.run(syms, includes=['GLib', 'GObject'], dump=ET.ElementTree(ET.fromstring(''.join(dump))), warnings=True)
     except (Exception, SystemExit) as ex:      # noqa
         ck.failing_input('the scanner fails while merging enumerations and error quarks: %r' % (ex,), case)
         return
     ns = S.gir_ns(r.root)
     ck.count_case(case, nontrivial=len(ew) > 1, kind='error-world:%d' % len(ew))
     top_funcs = [f.get(S.CNS + 'identifier') for f in ns.findall(S.CORE + 'function') if f.get('moved-to') is None]
+    # the same world for Model.C12Q: enumerations in the order of the GIR, quark functions in the order of their symbols
+    obs = []
+    for e in ew:
+        el = next((x for x in ns if x.tag in (S.CORE + 'enumeration', S.CORE + 'bitfield') and x.get(S.CNS + 'type') == 'Foo' + e['name']), None)
+        obs.append(None if el is None else el.get(S.GLIB + 'error-domain'))
+    enums_only = [e for e in ew if not e['flags']]
+    qitems.append('(%d, %s, %s, %s, %d%%nat)' % (
+        len(qitems),
+        clist(['{| qe_name := %s; qe_prefix := %s; qe_domain := None |}' % (cstr(e['name']), copt(e['prefix'] if e['registered'] else None, cstr))
+               for e in enums_only]),
+        clist(['{| q_short := %s; q_domain := %s |}' % (cstr(o['prefix']), cstr(o['domain'])) for o in orphans]
+              + ['{| q_short := %s; q_domain := %s |}' % (cstr(e['prefix']), cstr(e['domain'])) for e in ew if e['domain']]),
+        clist([copt(o_, cstr) for e, o_ in zip(ew, obs) if not e['flags']]),
+        r.log.count("Couldn't find corresponding enumeration")))
     for e in ew:
         el = next((x for x in ns if x.tag in (S.CORE + 'enumeration', S.CORE + 'bitfield') and x.get(S.CNS + 'type') == 'Foo' + e['name']), None)
         if el is None:
@@ -298,13 +319,30 @@ def main(tier, seed):
                        'GType names of the dump carry the namespace identifier prefix; implemented interfaces and prerequisites are known types',
                        'enumerations, flags and error quarks of the dump are judged by direct clauses in worlds of their own (not in the Coq model); '
                        'pointer and fundamental types of the dump are not generated']
-    ck.prove(['gen_c02.py'], models=['Model/C12Spec.vo'])
+    ck.prove(['gen_c02.py'], models=['Model/C12Spec.vo', 'Model/C12Q.vo'])
     import scanner as S
     import xml.etree.ElementTree as ET
     rng = random.Random(seed)
     n = 60 if tier == 'quick' else 900
+    qitems = []
     for i in range(n // 2):
-        run_error_world(ck, S, ET, error_world(rng))
+        run_error_world(ck, S, ET, error_world(rng), qitems)
+    if ck.models_ok and qitems:
+        text = '\n'.join(['From Coq Require Import List NArith Bool.', 'From GIV.Lib Require Import Regex Str.',
+                          'From GIV.Model Require Import C02 C04 C12Q.', 'Import ListNotations.', 'Local Open Scope N_scope.',
+                          'Definition ostr_eqb (a b : option str) := match a, b with Some x, Some y => str_eqb x y | None, None => true | _, _ => false end.',
+                          'Fixpoint all2 {A} (f : A -> A -> bool) (a b : list A) := match a, b with [] , [] => true | x :: s, y :: t => f x y && all2 f s t | _, _ => false end.',
+                          'Definition cases : list (N * list qenum * list quark * list (option str) * nat) := [%s].' % ';\n'.join(qitems),
+                          "Definition bad := Eval vm_compute in map (fun c => fst (fst (fst (fst c)))) (filter (fun c => let '(_, es, qs, o, w) := c in",
+                          '  let r := pair_all es qs in negb (all2 ostr_eqb (map qe_domain (fst r)) o && Nat.eqb (List.length (snd r)) w)) cases).',
+                          'Print bad.'])
+        rc, out = coq_eval('C12Q_cases', text)
+        if rc != 0:
+            ck.tie_broken('correspondence', 'error-quark case file does not evaluate:\n' + out[-2000:])
+        else:
+            bad = parse_nlist(parse_defs(out)['bad'])
+            if bad:
+                ck.tie_broken('correspondence', 'error domains differ from Model.C12Q.pair_all on %d worlds' % len(bad), dict(case=qitems[bad[0]][:1500]))
     items = []
     worlds = []
     for i in range(n):
